@@ -74,7 +74,7 @@ fn fake_header(net: NetID, height: u64, salt: u8) -> Header {
 pub fn run(p: &Params) -> Report {
     let mut rep = Report::new("C18");
     rep.rule = "cases = DoscMint transactions applied to fabricated states: real MelPoW proofs generated with the harness's own legacy and TIP-910 hash functions (difficulty 1..10 quick, ..14 thorough), coin ages 1..200, previous DOSC speeds 1..10^6 so that the reward ranges from 0 to large, ERG created at reward-1 / reward / reward+1, on custom networks and on mainnet (age below/at/above 100); corruptions: flipped proof byte, dropped node, proof for another coin / another creation height, stated difficulty +-1, garbage data, several mints in one block. Oracle: accept iff data decodes, the proof verifies (reference call into melpow with the harness's hashers) for puzzle = keyed-hash(header at the coin's creation height, coin id), ERG <= floor(inflator(h) * floor(work*speed*10^6/(prev_speed^2*2880)) / 10^6), and on mainnet age >= 100; sealed dosc_speed = max(previous, speeds of accepted mints) and never decreases. Non-trivial = every case; distinct by transaction hash".into();
-    let total = p.n(1400, 28000);
+    let total = p.n(4000, 80000);
     let mine = p.share(total);
     let mut rng = Rng::new(p.shard_seed() ^ 0xC18);
     let max_d = if p.thorough { 14 } else { 10 };
@@ -303,7 +303,7 @@ pub fn run(p: &Params) -> Report {
         }
     }
     // several mints in one block: dosc_speed is the maximum, independent of order
-    let n_multi = p.share(p.n(60, 1200));
+    let n_multi = p.share(p.n(120, 3000));
     for k in 0..n_multi {
         let case_seed = rng.next();
         let mut r = Rng::new(case_seed);
